@@ -491,7 +491,7 @@ func replayObligation(e *Eng, r ObResult, repo string) (src string, confirmed bo
 	fmt.Fprintf(&b, "// Code generated by gvc: replay of the counterexample of obligation\n//   %s\n// on the real code.  Run with:\n//   cd %s && go test -overlay <ov.json> -vet=off -count=1 -timeout 60s -run TestZZVerifReplay ./%s\n", r.Name, repo, strings.TrimPrefix(fn.Pkg.Pkg.Path(), modPath+"/"))
 	fmt.Fprintf(&b, "package %s\n\nimport (\n\t\"fmt\"\n\t\"reflect\"\n\t\"testing\"\n)\n\nvar _ = reflect.DeepEqual\n\n", fn.Pkg.Pkg.Name())
 	b.WriteString("func TestZZVerifReplay(t *testing.T) {\n")
-	b.WriteString("\tok := true\n\tdiverged := func(what string, got, want any) { ok = false; fmt.Printf(\"REPLAY-DIVERGED %s: real code %+v, model %+v\\n\", what, got, want) }\n\t_ = diverged\n")
+	b.WriteString("\tok := true\n\tdiverged := func(what string, got, want any) { ok = false; fmt.Printf(\"REPLAY-DIVERGED %s: real code %+v, model %+v\\n\", what, got, want) }\n\t_ = diverged\n\t_ = ok\n")
 	for _, s := range pre.stmts {
 		b.WriteString("\t" + s + "\n")
 	}
